@@ -15,6 +15,9 @@ for c in m["checks"]:
     msg = []
     if e["level"] != c["level_claimed"]["category"]:
         msg.append("level %s != claimed %s" % (e["level"], c["level_claimed"]["category"]))
+    rule = cov.get("level_by_count_rule_this_run")
+    if rule and rule != c["level_claimed"]["category"]:
+        msg.append("count rule says %s, claimed %s: change claims.json" % (rule, c["level_claimed"]["category"]))
     if cov.get("obligations") != cov.get("discharged"):
         msg.append("discharged %s != obligations %s" % (cov.get("discharged"), cov.get("obligations")))
     if cov.get("bounded_obligations") != cov.get("bounded_discharged"):
